@@ -1,4 +1,5 @@
 import PgsVerif.Props.TieCodeC17
+import PgsVerif.Generated.Code_typePredicates
 /-!
 # Tie (translated code): the shape predicates of the five field-type structs
 
